@@ -780,6 +780,11 @@ class CallMixin:
                 if not stor["open"]:
                     return [("val", dflt, st)]
             return self.hooks.open_dict_get(self, st, recv, k, dflt)
+        if name in ("items", "keys", "values") and not stor["open"] and not all(z3.is_true(p) for p, _ in stor["e"].values()):
+            out = []
+            for s_split in self.split_presence(recv, st):
+                out.extend(self.dict_method(recv, s_split.get(recv), name, args, kwargs, s_split))
+            return out
         if name == "items":
             if stor["open"] or not all(z3.is_true(p) for p, _ in stor["e"].values()):
                 raise Unsupported("items() of dict with maybe-present keys")
